@@ -3,23 +3,29 @@
 package absnfs
 
 import (
+	"errors"
 	"fmt"
+	"os"
+	"sync"
+	"sync/atomic"
 	"testing"
 	"time"
 
 	"verif.local/lib/evid"
 	"verif.local/lib/refs"
+	"verif.local/lib/rfc"
 	"verif.local/lib/xdrw"
 )
 
 // C02: namespace operations refine a POSIX tree model; caches are transparent.
 func TestVerif_C02(t *testing.T) {
 	rec := evid.New("C02")
-	rec.Rule = "seeded 60-op histories over names {a,b,c,d}, depth<=3, of LOOKUP/CREATE/MKDIR/SYMLINK/REMOVE/RMDIR/RENAME/READDIR(PLUS)/GETATTR/READLINK/WRITE executed in lockstep on servers differing only in cache configuration (4 quick, 8 thorough), judged against a model tree; distinct = (procedure, target exists, handle unambiguous, status) tuples"
+	rec.Rule = "seeded 60-op histories over names {a,b,c,d}, depth<=3, of LOOKUP/CREATE/MKDIR/SYMLINK/REMOVE/RMDIR/RENAME/READDIR(PLUS)/GETATTR/READLINK/WRITE executed in lockstep on servers differing only in cache configuration (4 quick, 8 thorough), judged against a model tree; plus every namespace mutation with exactly one of its changing backend calls failed (EPERM, EIO): reply and backend tree must tell the same story; distinct = (procedure, target exists, handle unambiguous, status) tuples"
 	defer rec.Write()
 	cfgs := vfTreeConfigs(evid.Tier() == "thorough")
 	eps := evid.Pick(120, 3000)
 	hits := map[string]uint64{}
+	vfC02Faults(rec)
 	for si, sc := range vfScripts {
 		tr := vfNewTree(rec, "C02", -1-si, cfgs)
 		if tr.dead {
@@ -129,4 +135,196 @@ func TestVerif_C04(t *testing.T) {
 		srv.Close()
 	}
 	rec.MinDistinct = 30
+}
+
+// vfC02Faults: "a failed request leaves the tree unchanged" when the failure comes from the backend.
+// For every namespace mutation the sequence of backend calls it makes is recorded on a fresh tree;
+// then, on fresh trees again, exactly one of those calls is made to fail (before it touches anything).
+// Whatever the server answers, the answer and the backend must tell the same story: a failure reply
+// with the tree as it was, or a success reply with the object in place; and afterwards LOOKUP and
+// READDIR through the server (caches on) must agree with the backend. Only calls that change
+// something are failed (the creation itself, and the calls that give the new object its mode and
+// owner): a failing lstat after a completed mutation leaves the server nothing to undo.
+func vfC02Faults(rec *evid.Rec) {
+	type opDef struct {
+		name string
+		prep func(fs *refs.FS)
+		do   func(c *vfClient, dh uint64) *rfc.Res
+		obj  string // the path the request is about
+		kind string // what it is when the request succeeded ("" = gone)
+	}
+	mode := uint32(0640)
+	uid, gid := uint32(1000), uint32(1000)
+	ops := []opDef{
+		{"CREATE-unchecked", nil, func(c *vfClient, dh uint64) *rfc.Res {
+			r, _ := c.create(dh, "n", 0, xdrw.Sattr3{Mode: &mode}, [8]byte{})
+			return r
+		}, "/d/n", "file"},
+		{"CREATE-guarded", nil, func(c *vfClient, dh uint64) *rfc.Res {
+			r, _ := c.create(dh, "n", 1, xdrw.Sattr3{Mode: &mode}, [8]byte{})
+			return r
+		}, "/d/n", "file"},
+		{"CREATE-exclusive", nil, func(c *vfClient, dh uint64) *rfc.Res {
+			r, _ := c.create(dh, "n", 2, xdrw.Sattr3{}, [8]byte{1, 2, 3, 4, 5, 6, 7, 8})
+			return r
+		}, "/d/n", "file"},
+		{"MKDIR", nil, func(c *vfClient, dh uint64) *rfc.Res {
+			r, _ := c.mkdir(dh, "n", xdrw.Sattr3{Mode: &mode})
+			return r
+		}, "/d/n", "dir"},
+		{"SYMLINK", nil, func(c *vfClient, dh uint64) *rfc.Res {
+			r, _ := c.symlink(dh, "n", "target", xdrw.Sattr3{UID: &uid, GID: &gid})
+			return r
+		}, "/d/n", "symlink"},
+		{"REMOVE", func(fs *refs.FS) { fs.PlantFile("/d/n", []byte("x"), 0666, 0, 0) }, func(c *vfClient, dh uint64) *rfc.Res {
+			r, _ := c.remove(dh, "n")
+			return r
+		}, "/d/n", ""},
+		{"RMDIR", func(fs *refs.FS) { fs.PlantDir("/d/n", 0777, 0, 0) }, func(c *vfClient, dh uint64) *rfc.Res {
+			r, _ := c.rmdir(dh, "n")
+			return r
+		}, "/d/n", ""},
+		{"RENAME", func(fs *refs.FS) { fs.PlantFile("/d/m", []byte("x"), 0666, 0, 0) }, func(c *vfClient, dh uint64) *rfc.Res {
+			r, _ := c.rename(dh, "m", dh, "n")
+			return r
+		}, "/d/n", "file"},
+	}
+	outcomes := map[string]int{}
+	defer func() { rec.Set("backend_fault_outcomes", outcomes) }()
+	changing := func(op *refs.Op) bool {
+		switch op.Name {
+		case "Chmod", "Chown", "Lchown", "Chtimes", "File.Close", "File.Sync":
+			return true
+		}
+		return op.Mutating
+	}
+	for _, od := range ops {
+		for _, cached := range []bool{false, true} {
+			// set-up shared by the discovery run and the faulted runs
+			setup := func() (*refs.FS, *vfSrv, *vfClient, uint64, bool) {
+				fs := refs.New()
+				fs.PlantDir("/d", 0777, 0, 0)
+				if od.prep != nil {
+					od.prep(fs)
+				}
+				o := ExportOptions{AttrCacheTimeout: 1}
+				if cached {
+					o = ExportOptions{AttrCacheTimeout: time.Hour, EnableDirCache: true, CacheNegativeLookups: true}
+				}
+				srv, err := vfNewSrv(fs, o)
+				if err != nil {
+					rec.Infra(err.Error())
+					return nil, nil, nil, 0, false
+				}
+				c := srv.client()
+				c.Cred = xdrw.AuthSys(1, "h", 1000, 1000, nil)
+				root, _ := c.mnt("/")
+				dl, _ := c.lookup(root, "d")
+				if dl == nil || dl.Status != 0 {
+					rec.Infra("lookup /d")
+					srv.Close()
+					return nil, nil, nil, 0, false
+				}
+				dh := vfFH(dl.FH)
+				// what a client has typically done before: listed the directory and asked for the name
+				c.readdirplus(dh, 0, 4096, 8192)
+				c.lookup(dh, "n")
+				return fs, srv, c, dh, true
+			}
+			fs, srv, c, dh, ok := setup()
+			if !ok {
+				return
+			}
+			var calls []string
+			var mu sync.Mutex
+			fs.SetHook(func(op *refs.Op, ph refs.Phase) error {
+				if ph == refs.Before && changing(op) {
+					mu.Lock()
+					calls = append(calls, op.Name)
+					mu.Unlock()
+				}
+				return nil
+			})
+			r0 := od.do(c, dh)
+			fs.SetHook(nil)
+			srv.Close()
+			if r0 == nil || r0.Status != 0 {
+				rec.Infra(fmt.Sprintf("%s does not succeed without a fault: %v", od.name, vfSt(r0)))
+				return
+			}
+			for k, callName := range calls {
+				for _, ferr := range []error{os.ErrPermission, errors.New("input/output error")} {
+					fs, srv, c, dh, ok := setup()
+					if !ok {
+						return
+					}
+					before := fs.Snapshot()
+					var n atomic.Int32
+					fs.SetHook(func(op *refs.Op, ph refs.Phase) error {
+						if ph == refs.Before && changing(op) {
+							if int(n.Add(1))-1 == k {
+								return ferr
+							}
+						}
+						return nil
+					})
+					r := od.do(c, dh)
+					fs.SetHook(nil)
+					rec.Eval(1)
+					after := fs.Snapshot()
+					desc := map[string]any{"request": od.name, "failed_call": fmt.Sprintf("#%d %s", k, callName), "error": ferr.Error(), "caches": cached, "backend_calls": calls}
+					outcome := "no-reply"
+					if r != nil {
+						_, exists := after[od.obj]
+						kindNow := ""
+						if exists {
+							kindNow = vfC02KindName(after[od.obj].Kind)
+						}
+						if r.Status != 0 {
+							outcome = "refused"
+							if eq, diff := refs.SnapEqual(before, after); !eq {
+								outcome = "refused-but-changed"
+								rec.Violate("C02/failed-request-changed-the-tree/proc="+od.name+"/failing-backend-call="+callName, fmt.Sprintf("%s answered status %d because backend call #%d (%s) failed with %q, yet the tree changed: %s", od.name, r.Status, k, callName, ferr, diff), desc)
+							}
+						} else {
+							outcome = "ok"
+							if kindNow != od.kind {
+								outcome = "ok-but-not-done"
+								rec.Violate("C02/ok-reply-without-the-effect/proc="+od.name+"/failing-backend-call="+callName, fmt.Sprintf("%s answered OK although backend call #%d (%s) failed with %q; %s is %q in the backend, a completed request leaves %q", od.name, k, callName, ferr, od.obj, kindNow, od.kind), desc)
+							}
+						}
+						// the caches must tell the same story as the backend
+						_, existsNow := after["/d/n"]
+						if l, _ := c.lookup(dh, "n"); l != nil && (l.Status == 0) != existsNow {
+							rec.Violate("C02/cache-hides-the-outcome-of-a-request-that-met-a-backend-failure/proc="+od.name+"/LOOKUP", fmt.Sprintf("after %s (backend call #%d %s failed, reply status %d): /d/n exists in the backend: %v, LOOKUP answers status %d", od.name, k, callName, r.Status, existsNow, l.Status), desc)
+						}
+						if rd, _ := c.readdir(dh, 0, 8192); rd != nil && rd.Status == 0 {
+							listed := false
+							for _, e := range rd.Entries {
+								if e.Name == "n" {
+									listed = true
+								}
+							}
+							if listed != existsNow {
+								rec.Violate("C02/cache-hides-the-outcome-of-a-request-that-met-a-backend-failure/proc="+od.name+"/READDIR", fmt.Sprintf("after %s (backend call #%d %s failed, reply status %d): /d/n exists in the backend: %v, READDIR lists it: %v", od.name, k, callName, r.Status, existsNow, listed), desc)
+							}
+						}
+					}
+					rec.Distinct(fmt.Sprintf("fault|%s|caches=%v|call=%s|%s|%s", od.name, cached, callName, ferr, outcome))
+					outcomes[fmt.Sprintf("%s: call #%d %s fails -> %s", od.name, k, callName, outcome)]++
+					srv.Close()
+				}
+			}
+		}
+	}
+}
+
+func vfC02KindName(k refs.Kind) string {
+	switch k {
+	case refs.KDir:
+		return "dir"
+	case refs.KLink:
+		return "symlink"
+	}
+	return "file"
 }
